@@ -764,15 +764,18 @@ class Link(SimComponent):
             receiver = self.endpoint_b
         frame_size = frame.size_Mbits
 
+        # Load the frame size on the link before delivery, so that anything the receiver sends back over this link
+        # while it is handling the frame is admitted against the capacity that is really left
+        self.current_load += frame_size
         if receiver.receive_frame(frame):
             # Frame transmitted successfully
-            # Load the frame size on the link
-            self.current_load += frame_size
             _LOGGER.debug(
                 f"Added {frame_size:.3f} Mbits to {self}, current load {self.current_load:.3f} Mbits "
                 f"({self.current_load_percent})"
             )
             return True
+        # Frame was not accepted by the receiver, release the capacity again
+        self.current_load = max(self.current_load - frame_size, 0.0)
         return False
 
     def __str__(self) -> str:
